@@ -92,50 +92,62 @@ Proof.
   intros H [Hk|Hk]; [subst k'; now rewrite beqb_refl in E | now apply IH].
 Qed.
 
-(* the layout class at one name: whatever starts with [path] is [path] itself or lies below [path/] *)
-Definition prefix_free_at (objs : gstore) (path : str) : Prop :=
-  forall k, In k (map fst objs) -> prefixb path k = true -> k = path \/ prefixb (path ++ s_slash) k = true.
+(* the regenerated switch: the folder probe of newFileInfo lists with the prefix path+"/" *)
+Lemma gcs_fileinfo_prefix_sep_fact : gcs_fileinfo_prefix_sep = 1.
+Proof. reflexivity. Qed.
 
-(* C20: a name (that is not itself an object) is a folder exactly when objects exist under it *)
+Lemma exists_prefixed (p : str) (l : list str) :
+  ~ (forall k, In k l -> prefixb p k = false) -> exists k, In k l /\ prefixb p k = true.
+Proof.
+  induction l as [|k l IH]; intros Hne.
+  - exfalso. apply Hne. intros k [].
+  - destruct (prefixb p k) eqn:E; [exists k; split; [now left | exact E]|].
+    destruct IH as (k' & Hk' & Hp').
+    + intros H. apply Hne. intros k0 [<-|Hk0]; [exact E | now apply H].
+    + exists k'. split; [now right | exact Hp'].
+Qed.
+
+(* C20: a name (that is not itself an object) is a folder exactly when objects exist under it.
+   No layout hypothesis: since the probe carries the separator, a look-alike sibling ("d.txt" next to
+   the name "d") no longer makes the name a folder. *)
 Theorem folder_iff_objects_below bkt (objs : gstore) name path :
-  split_name name = (bkt, path) -> path <> [] -> prefix_free_at objs path ->
+  split_name name = (bkt, path) -> path <> [] ->
   alist_get path objs = None ->
   ((exists i, new_file_info bkt objs name = inr i /\ gi_dir i = true) <->
-   (exists k, In k (map fst objs) /\ prefixb (path ++ s_slash) k = true)) /\
+   (exists k, In k (map fst objs) /\ prefixb (ensure_trailing path) k = true)) /\
   ((exists i, new_file_info bkt objs name = inr i) -> exists i, new_file_info bkt objs name = inr i /\ gi_dir i = true).
 Proof.
-  intros Hs Hp Hpf Hg.
+  intros Hs Hp Hg.
   assert (Hnfi : new_file_info bkt objs name =
-                 match list_page objs path with
+                 match list_page objs (ensure_trailing path) with
                  | [] => inl GENOENT
                  | _ :: _ => inr (mkGI (ensure_trailing name) true folder_size) end).
   { unfold new_file_info. rewrite Hs. unfold get_bucket. rewrite beqb_refl.
     unfold o_attrs, o_check. rewrite beqb_refl. cbn [negb].
+    rewrite gcs_fileinfo_prefix_sep_fact. cbn [Z.eqb Pos.eqb].
     destruct path; [contradiction|]. cbn [is_empty]. now rewrite Hg. }
   rewrite Hnfi.
-  destruct (list_page objs path) as [|e l] eqn:El.
-  - pose proof (proj1 (list_page_nil objs path) El) as Hnil.
+  destruct (list_page objs (ensure_trailing path)) as [|e l] eqn:El.
+  - pose proof (proj1 (list_page_nil objs (ensure_trailing path)) El) as Hnil.
     split; [split|].
     + intros (i & H & _). discriminate.
-    + intros (k & Hk & Hpre). apply prefixb_app_weaken in Hpre. rewrite (Hnil k Hk) in Hpre. discriminate.
+    + intros (k & Hk & Hpre). rewrite (Hnil k Hk) in Hpre. discriminate.
     + intros (i & H). discriminate.
   - split; [split|].
-    + intros _.
-      assert (Hne : ~ (forall k, In k (map fst objs) -> prefixb path k = false)).
-      { intros H. apply list_page_nil in H. rewrite H in El. discriminate. }
-      assert (Hex : exists k, In k (map fst objs) /\ prefixb path k = true).
-      { clear -Hne. induction (map fst objs) as [|k l IH].
-        - exfalso. apply Hne. intros k [].
-        - destruct (prefixb path k) eqn:E; [exists k; split; [now left | exact E]|].
-          destruct IH as (k' & Hk' & Hp').
-          + intros H. apply Hne. intros k0 [<-|Hk0]; [exact E | now apply H].
-          + exists k'. split; [now right | exact Hp']. }
-      destruct Hex as (k & Hk & Hpre). exists k. split; [exact Hk|].
-      destruct (Hpf k Hk Hpre) as [->|H]; [|exact H].
-      exfalso. exact (alist_get_none_notin _ _ Hg Hk).
+    + intros _. apply exists_prefixed.
+      intros H. apply list_page_nil in H. rewrite H in El. discriminate.
     + intros _. eexists. split; reflexivity.
     + intros _. eexists. split; reflexivity.
 Qed.
+
+Lemma ensure_trailing_plain (p : str) :
+  p <> [] -> last_is_slash p = false -> ensure_trailing p = p ++ s_slash.
+Proof. intros Hp Hl. unfold ensure_trailing. destruct p; [contradiction|]. cbn [is_empty]. now rewrite Hl. Qed.
+
+(* the situation the old probe (bare path) got wrong, computed: only "d.txt" exists, the name is "b/d" *)
+Example look_alike_sibling_is_no_folder :
+  new_file_info [98]%N [([100;46;116;120;116]%N, [1]%N)] [98;47;100]%N = inl GENOENT.
+Proof. vm_compute. reflexivity. Qed.
 
 (* ------------------------------------------------------------------ Remove on a folder *)
 Lemma close_io_fresh bkt (objs : gstore) r :
